@@ -32,17 +32,20 @@ theorem num_runSteps (N : NumOps F) (t : Toks (QV F)) :
   simp [runSteps, runStep, Generated.numSteps, numArgOps, numSem]
 
 theorem num_okBin {o : String} (h : numGrammar.okBin o = true) :
-    o = "mul" ∨ o = "truediv" ∨ o = "add" ∨ o = "sub" := by
+    o = "pow" ∨ o = "mul" ∨ o = "truediv" ∨ o = "add" ∨ o = "sub" := by
   simpa [numGrammar, or_assoc] using h
 
 abbrev numEval (N : NumOps F) (av : A → QV F) (e : E A) : QV F :=
-  e.eval (numSem N) (numBinSem N) (fun _ q => q) av
+  e.eval (numSem N) (numBinSem N) (numPreSem N) av
 
-theorem num_top_le (e : E A) (hw : e.WF numGrammar) : e.top numGrammar ≤ 3 := by
+theorem num_okPre {u : String} (h : numGrammar.okPre u = true) : u = "add" ∨ u = "sub" := by
+  simpa [numGrammar] using h
+
+theorem num_top_le (e : E A) (hw : e.WF numGrammar) : e.top numGrammar ≤ 4 := by
   cases e with
-  | pre u e => have := hw.1; simp [numGrammar] at this
+  | pre u e => simp [E.top, numGrammar]
   | bin o l r =>
-    rcases num_okBin hw.1 with rfl | rfl | rfl | rfl <;> simp [E.top, numGrammar]
+    rcases num_okBin hw.1 with rfl | rfl | rfl | rfl | rfl <;> simp [E.top, numGrammar]
   | _ => simp [E.top]
 
 /-- All steps on the token list of a well-formed numerical tree (arguments already solved to
@@ -50,10 +53,9 @@ theorem num_top_le (e : E A) (hw : e.WF numGrammar) : e.top numGrammar ≤ 3 := 
 theorem num_machine (N : NumOps F) (av : A → QV F) (e : E A) (hw : e.WF numGrammar) :
     machine (numSem N) numKeys Generated.numSteps (e.toks (numEval N av) av) =
       some (.atom (numEval N av e)) := by
-  have hpre : ∀ u, numGrammar.okPre u = false := fun _ => rfl
   have ha : argsPass (numFn N) numArgOps (e.toks (numEval N av) av) =
-      e.collapse (numSem N) (numBinSem N) (fun _ q => q) av numGrammar 0 := by
-    apply argsPass_toks (numSem N) (numBinSem N) (fun _ q => q) av numGrammar numArgOps (by decide)
+      e.collapse (numSem N) (numBinSem N) (numPreSem N) av numGrammar 0 := by
+    apply argsPass_toks (numSem N) (numBinSem N) (numPreSem N) av numGrammar numArgOps (by decide)
     · intro f hf
       simp [numGrammar] at hf
       rcases hf with ((((((rfl | rfl) | rfl) | rfl) | rfl) | rfl) | rfl) <;> decide
@@ -61,26 +63,33 @@ theorem num_machine (N : NumOps F) (av : A → QV F) (e : E A) (hw : e.WF numGra
       simp [numGrammar] at hf
       rcases hf with rfl | rfl <;> decide
     · exact hw
-  have hs := signPass_alt (numSem N).neg ["add", "sub"] _
-    (collapse_alt (numSem N) (numBinSem N) (fun _ q => q) av numGrammar hpre 0 e hw) []
-  have h1 := binPass_collapse_all (numSem N) (numBinSem N) (fun _ q => q) av numGrammar 1 (by omega)
+  have hs := signPass_collapse (numSem N) (numBinSem N) (numPreSem N) av numGrammar (numSem N).neg ["add", "sub"]
+    (by intro u hu
+        rcases num_okPre hu with rfl | rfl
+        · refine ⟨by decide, rfl, ?_⟩; funext q; simp [numPreSem]
+        · refine ⟨by decide, rfl, ?_⟩; funext q; simp [numPreSem])
+    (by intro o ho; rcases num_okBin ho with rfl | rfl | rfl | rfl | rfl <;> simp [numGrammar])
+    e hw [] [] trivial
+  have hs' : signPass (numSem N).neg ["add", "sub"] []
+      (e.collapse (numSem N) (numBinSem N) (numPreSem N) av numGrammar 0) =
+      some (e.collapse (numSem N) (numBinSem N) (numPreSem N) av numGrammar 1) := by
+    simp only [List.append_nil] at hs
+    rw [hs, signPass]; simp
+  have h2 := binPass_collapse_all (numSem N) (numBinSem N) (numPreSem N) av numGrammar 2 (by omega)
     (fun o => if o ∈ ["pow"] then numBin N o else none)
-    (by intro o ho; rcases num_okBin ho with rfl | rfl | rfl | rfl <;> simp [numGrammar])
-    (by intro u hu; simp [numGrammar] at hu) e hw
-  have h2 := binPass_collapse_all (numSem N) (numBinSem N) (fun _ q => q) av numGrammar 2 (by omega)
+    (by intro o ho; rcases num_okBin ho with rfl | rfl | rfl | rfl | rfl <;> simp [numGrammar, numBin, numBinSem])
+    (by intro u hu h; simp [numGrammar] at h) e hw
+  have h3 := binPass_collapse_all (numSem N) (numBinSem N) (numPreSem N) av numGrammar 3 (by omega)
     (fun o => if o ∈ ["mul", "truediv"] then numBin N o else none)
-    (by intro o ho; rcases num_okBin ho with rfl | rfl | rfl | rfl <;> simp [numGrammar, numBin, numBinSem])
-    (by intro u hu; simp [numGrammar] at hu) e hw
-  have h3 := binPass_collapse_all (numSem N) (numBinSem N) (fun _ q => q) av numGrammar 3 (by omega)
+    (by intro o ho; rcases num_okBin ho with rfl | rfl | rfl | rfl | rfl <;> simp [numGrammar, numBin, numBinSem])
+    (by intro u hu h; simp [numGrammar] at h) e hw
+  have h4 := binPass_collapse_all (numSem N) (numBinSem N) (numPreSem N) av numGrammar 4 (by omega)
     (fun o => if o ∈ ["add", "sub"] then numBin N o else none)
-    (by intro o ho; rcases num_okBin ho with rfl | rfl | rfl | rfl <;> simp [numGrammar, numBin, numBinSem])
-    (by intro u hu; simp [numGrammar] at hu) e hw
-  have hc := collapse_of_top_le (numSem N) (numBinSem N) (fun _ q => q) av numGrammar 3 e (num_top_le e hw)
-  simp only [Nat.sub_self, Nat.add_one_sub_one] at h1 h2 h3
-  simp only [machine, num_runSteps, ha]
-  simp only [List.reverse_nil, List.nil_append] at hs
-  rw [hs]
-  simp only [Option.bind_some, h1, h2, h3, hc]
+    (by intro o ho; rcases num_okBin ho with rfl | rfl | rfl | rfl | rfl <;> simp [numGrammar, numBin, numBinSem])
+    (by intro u hu h; simp [numGrammar] at h) e hw
+  have hc := collapse_of_top_le (numSem N) (numBinSem N) (numPreSem N) av numGrammar 4 e (num_top_le e hw)
+  simp only [Nat.add_one_sub_one, Nat.reduceSub] at h2 h3 h4
+  simp only [machine, num_runSteps, ha, hs', Option.bind_some, h2, h3, h4, hc]
 
 theorem num_finish (N : NumOps F) (av : A → QV F) (e : E A) (hw : e.WF numGrammar) :
     finish (numSem N) numKeys Generated.numSteps (e.toks (numEval N av) av) = some (numEval N av e) := by
@@ -96,7 +105,7 @@ theorem num_tk (N : NumOps F) (av : A → QV F) (e : E A) (hw : e.WF numGrammar)
   | fn1 f a ih => simp [E.tk, ih hw.2, num_finish N av a hw.2, E.toks]
   | fn2 f a b iha ihb =>
     simp [E.tk, iha hw.2.1, ihb hw.2.2, num_finish N av a hw.2.1, num_finish N av b hw.2.2, E.toks]
-  | pre u e ih => have := hw.1; simp [numGrammar] at this
+  | pre u e ih => simp [E.tk, ih hw.2.2.2, E.toks]
   | bin o l r ihl ihr =>
     obtain ⟨_, _, _, _, hwl, hwr⟩ := hw
     simp [E.tk, ihl hwl, ihr hwr, E.toks]
@@ -147,7 +156,7 @@ theorem log_machine (C : CmpOps F) (av : A → LV F) (e : E A) (hw : e.WF logGra
     (by intro o ho
         rcases log_okBin ho with rfl | rfl | rfl | rfl | rfl | rfl | rfl | rfl <;>
           simp [logGrammar, logBin, logBinSem, isCmp, cmpKeys])
-    (by intro u hu; rw [log_okPre hu]; simp [logGrammar, isCmp, cmpKeys]) e hw
+    (by intro u hu _; rw [log_okPre hu]; simp [logGrammar, isCmp, cmpKeys]) e hw
   have h2 := prePass_collapse_all (logSem C) (logBinSem C) logPreSem av logGrammar 2 (by omega)
     (fun o => if o ∈ ["not"] then logPre o else none)
     (by intro u hu; rw [log_okPre hu]; simp [logGrammar, logPre, logPreSem, isCmp])
@@ -159,13 +168,13 @@ theorem log_machine (C : CmpOps F) (av : A → LV F) (e : E A) (hw : e.WF logGra
     (by intro o ho
         rcases log_okBin ho with rfl | rfl | rfl | rfl | rfl | rfl | rfl | rfl <;>
           simp [logGrammar, logBin, logBinSem, isCmp])
-    (by intro u hu; rw [log_okPre hu]; simp [logGrammar, isCmp]) e hw
+    (by intro u hu _; rw [log_okPre hu]; simp [logGrammar, isCmp]) e hw
   have h4 := binPass_collapse_all (logSem C) (logBinSem C) logPreSem av logGrammar 4 (by omega)
     (fun o => if o ∈ ["or"] then logBin C o else none)
     (by intro o ho
         rcases log_okBin ho with rfl | rfl | rfl | rfl | rfl | rfl | rfl | rfl <;>
           simp [logGrammar, logBin, logBinSem, isCmp])
-    (by intro u hu; rw [log_okPre hu]; simp [logGrammar, isCmp]) e hw
+    (by intro u hu _; rw [log_okPre hu]; simp [logGrammar, isCmp]) e hw
   have hc := collapse_of_top_le (logSem C) (logBinSem C) logPreSem av logGrammar 4 e (log_top_le e hw)
   simp only [Nat.sub_self, Nat.add_one_sub_one] at h1 h2 h3 h4
   simp only [machine, log_runSteps, ha, h1, Option.bind_some, h2, h3, h4, hc]
